@@ -441,6 +441,13 @@ func (fr *Frame) havocCall(in ssa.Instruction, name string, args []Value, st *St
 	for _, a := range args {
 		fr.havocArg(st, a, 0)
 	}
+	for c := range p.escaped {
+		if _, ok := st.Locals[c]; ok && c.Typ != nil {
+			nv := freshValue(c.Typ, "esc."+c.Name)
+			p.assume(True(), p.typeInv(st, c.Typ, nv))
+			st.Locals[c] = nv
+		}
+	}
 	// callee may allocate
 	st.HeapTop = p.bumpHeapTop(st.HeapTop, "heaptop")
 	return fr.freshResult(st, rt, "r."+sanitize(name))
@@ -499,6 +506,9 @@ func (fr *Frame) havocArg(st *State, a Value, depth int) {
 			p.storeObj(st, x.RootT, x.Ref, ps, ft, nv)
 		}
 	case SliceV:
+		if untrackedElem(x.Elem) {
+			return
+		}
 		// contents may be overwritten
 		defer func() { recover() }()
 		for _, l := range leavesOf(x.Elem) {
@@ -850,6 +860,16 @@ func (fr *Frame) loopEffects(li *loopInfo) *effects {
 			}
 		}
 	}, 0, map[*ssa.Function]bool{})
+	// hidden iteration state of range loops inside this loop
+	for b := range li.body {
+		for _, in := range b.Instrs {
+			if nx, ok := in.(*ssa.Next); ok {
+				if rs := fr.rangeIt[nx.Iter]; rs != nil {
+					e.cells[rs.cell] = true
+				}
+			}
+		}
+	}
 	return e
 }
 
@@ -1038,6 +1058,16 @@ func addrRoot(v ssa.Value) ssa.Value {
 
 func (fr *Frame) callEffects(fn *ssa.Function, cc *ssa.CallCommon, e *effects, markRoot func(ssa.Value), depth int, seen map[*ssa.Function]bool) {
 	p := fr.p
+	// locals whose address was boxed into an interface may be written by any callee
+	for _, b := range fn.Blocks {
+		for _, in := range b.Instrs {
+			if mi, ok := in.(*ssa.MakeInterface); ok {
+				if al, ok := mi.X.(*ssa.Alloc); ok {
+					markRoot(al)
+				}
+			}
+		}
+	}
 	// any pointer-to-local passed as an argument may be written
 	for _, a := range cc.Args {
 		if al, _, _, ok := fr.rootOf(a); ok {
@@ -1212,6 +1242,9 @@ func (fr *Frame) argEffects(cc *ssa.CallCommon, e *effects) {
 				}
 			}
 		case *types.Slice:
+			if untrackedElem(t.Elem()) {
+				continue
+			}
 			for _, l := range safeLeaves(t.Elem()) {
 				e.heap[elemsKey(t.Elem(), l.Path)] = true
 				e.heapSort[elemsKey(t.Elem(), l.Path)] = SArr(SRef, SArr(SBV(64), l.Sort))
